@@ -579,6 +579,7 @@ def run(chk):
     _table_rule(chk, prog, guarded_bits)
     _assertany_rule(chk, prog)
     _applyall_rule(chk, prog)
+    _threadctx_rule(chk, prog)
 
 
 def _applyall_rule(chk, prog):
@@ -610,3 +611,53 @@ def _applyall_rule(chk, prog):
                           "janet_sandbox can return without `sandbox_flags |= flags`: the call succeeds but some requested capabilities "
                           "stay enabled")
     chk.floor(rule, 1, n)
+
+
+def _threadctx_rule(chk, prog):
+    """The sandbox flags live in the thread-local VM.  The subroutine of janet_ev_threaded_call / _await runs on a bare
+    worker thread whose janet_vm is all zeros: a janet_sandbox_assert evaluated there always passes.  A capability
+    has to be asserted by the function that hands the work over, on the interpreter's own thread."""
+    rule = "C18-THREADCTX"
+    chk.rule(rule, "no janet_sandbox_assert is evaluated on a worker thread (in a threaded subroutine or anything it calls): its VM has no sandbox flags")
+    from jv.callgraph import CallGraph
+    cg = CallGraph(prog)
+    subs = set()
+    for fn in prog.all_funcs():
+        for c in fn.calls("janet_ev_threaded_call", "janet_ev_threaded_await"):
+            a = strip_casts(c.args[0]) if c.args else None
+            if a is not None and a.k == "ref":
+                f = prog.func(a.name, fn.tu) or next((g for g in prog.all_funcs() if g.name == a.name), None)
+                if f is not None:
+                    subs.add(cg.fid(f))
+    if len(subs) < 3:
+        raise AnalysisBroken("only %d threaded subroutines found" % len(subs))
+    # everything they call directly (transitively), except the interpreter start-up of ev/thread, which builds its own VM
+    work, seen = list(subs), set()
+    while work:
+        f = work.pop()
+        if f in seen or f not in cg.funcs:
+            continue
+        seen.add(f)
+        if f[1] in ("janet_go_thread_subr",):
+            continue
+        for (n_, tgt, kind) in cg.sites.get(f, ()):
+            if kind == "direct":
+                for t in tgt:
+                    if isinstance(t, tuple):
+                        work.append(t)
+    n = 0
+    for f in sorted(seen, key=str):
+        fn = cg.funcs[f]
+        if f[1] == "janet_go_thread_subr":
+            continue
+        n += 1
+        chk.instance(rule)
+        chk.analysed(fn)
+        a = fn.calls("janet_sandbox_assert")
+        if a:
+            chk.violation(rule, fn.tu.name, fn.name, "assert-on-worker", a[0].loc,
+                          "`%s` runs on a worker thread started by janet_ev_threaded_call / _await, where the thread-local janet_vm is "
+                          "zero-initialised: the assertion never fires, so the operation it guards runs inside a sandbox" % a[0].text()[:50])
+        else:
+            chk.ok(rule, "%s: no sandbox test on the worker thread" % fn.name)
+    chk.floor(rule, 3, n)
